@@ -10,7 +10,7 @@ EXPLANATION = (
     'Decided clauses: P1 purge_old_deletes mutates only the tombstone map (P-EFFECT over its body and workspace callees); '
     'P2 the one cut-off predicate that selects tombstones for purge is the predicate will_apply refuses on, diff skips on when the '
     'replica holds nothing, and merge skips remote deletes on, and it is a strict `ts < cut-off` test, with the purge keeping a '
-    'tombstone exactly when the predicate is false; P3 the cut-off is a MIN over all per-source maps (zero stamp for a missing '
+    'tombstone exactly when the predicate is false and every tombstone taken out being kept or reported; P3 the cut-off is a MIN over all per-source maps (zero stamp for a missing '
     'source) minus the constant FORGIVENESS_PERIOD (3600 s in the shipped configuration) with a saturating subtraction; '
     'P4 actor side (re-add on failed purge, keys = purge result) is C02.O3. NOT decided: the cluster-level equivalence of '
     'purging and non-purging runs.')
